@@ -43,6 +43,7 @@ def run(ctx):
     R4 = rep.rule('C12.R4', 'IdBuilder::push rejects segments containing "." before mutating', floor=1)
     R5 = rep.rule('C12.R5', 'entry kind from the file system, extension from the shared helper', floor=1)
     R7 = rep.rule('C12.R7', 'an id builder handed in by reference is reset before it is used', floor=1)
+    R8 = rep.rule('C12.R8', 'every reported path is resolved against every watched root: no iteration over paths or roots in handle_event stops early', floor=1)
     R6 = rep.rule('C12.R6', 'the watched root itself is nameable: id_of_path can return Directory("") for path == root', floor=1)
     for cfg, F in ctx.cfgs():
         hr = 'hot-reloading' in ctx.cfg_features[cfg]
@@ -51,7 +52,8 @@ def run(ctx):
             r2(R2, cfg, F)
             r5(R5, cfg, F)
             r6(R6, cfg, F)
-            for r in (R1, R2, R5, R6):
+            r8(R8, cfg, F)
+            for r in (R1, R2, R5, R6, R8):
                 r.finish_cfg(cfg)
         if hr or 'zip' in ctx.cfg_features[cfg] or 'tar' in ctx.cfg_features[cfg]:
             r7(R7, cfg, F)
@@ -415,6 +417,42 @@ def r6(R6, cfg, F):
         if not ok:
             why = 'a Directory entry is returned without any pushed segment, but not under the condition path == root'
     R6.check(ok, cfg, b.path, 'root-directory-nameable', why, b.loc())
+
+
+SHORT_CIRCUIT = {'find', 'find_map', 'any', 'all', 'position', 'rposition', 'take', 'take_while', 'map_while', 'nth', 'nth_back', 'last', 'min', 'max',
+                 'min_by', 'max_by', 'min_by_key', 'max_by_key', 'skip', 'skip_while', 'step_by', 'next_back', 'try_for_each', 'try_fold', 'reduce',
+                 'rev_find', 'rfind', 'first', 'get', 'split_first', 'split_last'}
+
+
+def r8(R8, cfg, F):
+    """Roots may be nested (an override directory inside the main one), so a path can be an entry of several roots, and
+    one notification can carry several paths: every (path, root) pair that id_of_path can name is sent.  In the unit of
+    handle_event, an iterator over PathBufs / &Paths is consumed completely: by a loop around next(), or by adaptors that
+    visit every item (map, flat_map, filter_map, for_each, collect, chain, ...), never by one that stops at or selects
+    some item."""
+    hb = F.body('<hot_reloading::watcher::NotifyEventHandler as notify::EventHandler>::handle_event')
+    if not hb:
+        R8.missing(cfg, 'NotifyEventHandler::handle_event')
+        return
+    unit = [hb] + [x for x in F.closures_of.get(hb.path, [])]
+    n = 0
+    for b in unit:
+        for c in b.calls():
+            if not c.callee or c.exp:
+                continue
+            over = ' '.join(c.callee.args or []) + ' ' + (c.args[0]['place']['ty'] if c.args and c.args[0]['k'] in ('copy', 'move') else '')
+            is_iter = c.callee.trait in ('std::iter::Iterator', 'std::iter::DoubleEndedIterator') or 'slice' in c.callee.best
+            if not is_iter or not re.search(r'std::path::(PathBuf|Path)\b', over):
+                continue
+            n += 1
+            if c.callee.name == 'next':
+                in_loop = c.target is not None and c.bb in b.reachable([c.target])
+                R8.check(in_loop, cfg, b.path, 'paths-iterated-to-the-end:next', 'an iterator over paths / roots is asked for one item only (next() outside a loop): the other paths or roots are never looked at', c.loc())
+            else:
+                R8.check(c.callee.name not in SHORT_CIRCUIT, cfg, b.path, 'paths-iterated-to-the-end:' + c.callee.name,
+                         '`%s` over paths / roots stops at (or selects) some item: a path that lies under several watched roots, or the other paths of the notification, get no event' % c.callee.name, c.loc())
+    if n == 0:
+        R8.missing(cfg, 'an iteration over event.paths / self.roots in handle_event')
 
 
 def r7(R7, cfg, F):
